@@ -175,6 +175,15 @@ def content_family(chk):
                 tags = {f[2]: ([] if len(f) > 3 and f[3] in dl.SPECIAL_CONTENTS else [names[cat][p] for p in pats]) for f in all_files(ents2)}
                 native_check(chk, cat, ents2, pats, names[cat], '%s content family %r order %r' % (cat, [e_[3] if len(e_) > 3 else e_[0] for e_ in ents], perm), tags)
                 chk.ok()
+    # directories and files whose NAMES look special to path helpers (kept as they are: whatever order the file system lists them in)
+    for cat in dl.CATS:
+        pats = [p for p, _ in dl.CATS[cat]['patterns']][:2]
+        for dname in ('snapshots.t.sol', '.deps', 'T.SOL', 'a.sol', 'sp ace', 'ünï'):
+            for fname in ('In.sol', '.sol', '.Vault.sol'):
+                ents = [('dir', dname, [('file', fname, 'in'), ('dir', 'deep', [('file', 'Low.sol', 'low')])]), ('file', 'A.sol', 'a')]
+                tags = {f[2]: [names[cat][p] for p in pats] for f in all_files(ents)}
+                native_check(chk, cat, ents, pats, names[cat], '%s eligible files below a directory called %r (file %r)' % (cat, dname, fname), tags)
+                chk.ok()
     chk.sample({'content family': '%d trees x every listing order of the top directory x 3 categories: token-free eligible files (%s) next to files with findings' % (len(trees), ', '.join(kinds))})
 
 
